@@ -22,7 +22,10 @@ func (u *Unit) loopContract(fr *Frame, b *ssa.BasicBlock) *LoopContract {
 }
 
 func (u *Unit) invTags(cl *Clause) []string {
-	return append([]string{"support"}, cl.Tags...)
+	if len(cl.Tags) == 0 {
+		return []string{"support"}
+	}
+	return cl.Tags
 }
 
 func (u *Unit) cutLoop(st *State, fr *Frame, b *ssa.BasicBlock, lc *LoopContract) []Outcome {
@@ -51,7 +54,7 @@ func (u *Unit) cutLoop(st *State, fr *Frame, b *ssa.BasicBlock, lc *LoopContract
 			d0 := fr.loopDec[b]
 			g := And(IntLe(IntK(0), d0), IntLt(d1, d0))
 			name := fmt.Sprintf("%s#loop%d.decreases", fnKey(u.fn), lc.Ord)
-			u.oblige(st, name, "decreases", append([]string{"support"}, lc.Decreases.Tags...), g, lc.Decreases.Text)
+			u.oblige(st, name, "decreases", u.invTags(lc.Decreases), g, lc.Decreases.Text)
 		}
 		return nil // the path ends at the cut point
 	}
@@ -528,7 +531,52 @@ func (u *Unit) loopAllocates(fr *Frame, lc *LoopContract) bool {
 					}
 					continue
 				}
+				if fn := x.Common().StaticCallee(); fn != nil && !u.eng.fnAllocates(fn, 0) {
+					continue
+				}
 				return true
+			}
+		}
+	}
+	return false
+}
+
+// fnAllocates: may a call of fn allocate (by the ghost counter's rules)? Contracts with `allocates 0` and
+// transitively allocation-free bodies do not.
+func (e *Engine) fnAllocates(fn *ssa.Function, depth int) bool {
+	if ct := e.contracts[fnKey(fn)]; ct != nil && ct.AllocBound != nil {
+		if tv, ok := ct.AllocBound.Info.Types[ct.AllocBound.Expr]; ok && tv.Value != nil && tv.Value.String() == "0" {
+			return false
+		}
+		return true
+	}
+	if len(fn.Blocks) == 0 || depth > 6 {
+		return true
+	}
+	for _, b := range fn.Blocks {
+		for _, in := range b.Instrs {
+			switch x := in.(type) {
+			case *ssa.Alloc:
+				if x.Heap && (x.Comment == "new" || x.Comment == "complit" || x.Comment == "slicelit" || x.Comment == "makeslice") {
+					return true
+				}
+			case *ssa.MakeSlice, *ssa.MakeMap, *ssa.MakeInterface, *ssa.MakeClosure:
+				return true
+			case *ssa.Convert:
+				if isStringType(x.Type()) || isStringType(x.X.Type()) {
+					return true
+				}
+			case *ssa.Call:
+				if bi, ok := x.Common().Value.(*ssa.Builtin); ok {
+					if bi.Name() == "append" {
+						return true
+					}
+					continue
+				}
+				callee := x.Common().StaticCallee()
+				if callee == nil || e.fnAllocates(callee, depth+1) {
+					return true
+				}
 			}
 		}
 	}
